@@ -80,6 +80,10 @@ def run(chk, scratch):
     common.validate(chk, scratch, SPEC, "TimeoutRunnerTrace", "TimeoutRunnerTrace.cfg", tr, "deadline sweep", sig_of=sig_sweep,
                     count_traces=len)
     chk.sample({"sweep_event": vlib.read_ndjson(tr)[0]})
+    # the same sweep for the context runners (1 ms deadline, completion spun to +-120 us around it): every run must be a behaviour of CtxRunner.tla
+    trc, _ = common.record(vh, scratch, "c12", "sweepctx.ndjson", chk.seed, chk.tier, mode="sweep-ctx", timeout=1800)
+    common.validate(chk, scratch, SPEC, "CtxRunnerTrace", "CtxRunnerTrace.cfg", trc, "deadline sweep of the context runners", sig_of=sig_sweep, count_traces=len)
+    chk.sample({"ctx_sweep_event": vlib.read_ndjson(trc)[0]})
     tr, _ = common.record(vh, scratch, "c12", "store.ndjson", chk.seed, chk.tier, mode="record-store", n=(400 if thorough else 40))
     common.validate(chk, scratch, SPEC, "CancelStoreTrace", "CancelStoreTrace.cfg", tr, "cancel store histories", sig_of=sig_store,
                     count_traces=lambda evs: sum(1 for e in evs if e.get("op") == "New"))
